@@ -7,6 +7,7 @@ import (
 	"io"
 	"log/slog"
 	"net"
+	"path"
 	"path/filepath"
 	"syscall"
 	"time"
@@ -186,8 +187,10 @@ func (s *Server[StateT]) handleCommand(opCode proto.OpCode, ctx *Context[StateT]
 
 // cleanPath makes requested path rooted and lexically clean,
 // so ".." elements can't lead above the root of served filesystem whatever implementation it has.
-func cleanPath(path string) string {
-	return filepath.Clean(string(filepath.Separator) + path)
+func cleanPath(name string) string {
+	// Cleaned in slash form (which is what clients send): on windows a separator put in front of a name which
+	// begins with separator itself would make a volume name (\\PS3ISO\game.iso), not a rooted path.
+	return filepath.FromSlash(path.Clean("/" + filepath.ToSlash(name)))
 }
 
 func (s *Server[StateT]) handleOpenDir(ctx *Context[StateT]) error {
